@@ -135,7 +135,8 @@ func (r *Router) ServeHTTP(res http.ResponseWriter, req *http.Request) {
 func (r *Router) HandleContext(c *Context) {
 	c.Reset()
 	r.handleHTTPRequest(c)
-	r.ctxPool.Put(c)
+	// Notice: don't release the ctx here. It is still used by the caller and is released
+	// by ServeHTTP. Putting it twice hands one ctx to two requests in flight later.
 }
 
 // handle HTTP Request
